@@ -72,7 +72,7 @@ def P(i):
 
 def R(cls):
     """a tag that raises class cls through a namespace callable"""
-    return ['var', N('raise%s' % cls), []]
+    return ['var', N('raise%s' % cls.replace('~', 'F')), []]
 
 
 INFO = [T('{'), ['var', N('error_type'), []], T(':'),
@@ -258,6 +258,21 @@ def cases(tier):
             for sx in SYNTAXES:
                 yield {'fam': 'fin', 'ba': None if 'body' in empt else ba,
                        'fa': None, 'empty': empt, 'syntax': sx}
+    # handlers that name builtin / zExceptions classes, and raised classes
+    # that are, or only share the name of, such classes
+    bh = [['KeyError'], ['LookupError'], ['NotFound'], ['HX'], ['HA'],
+          ['Exception'], ['ValueError', 'KeyError'], []]
+    for k in (1, 2):
+        for hs in itertools.product(range(len(bh)), repeat=k):
+            names = [bh[i] for i in hs]
+            if sum(1 for n in names if not n) > 1:
+                continue
+            for br in ('KeyError~', 'NotFound~', 'KeyError', 'IndexError',
+                       'ValueError'):
+                idx += 1
+                yield {'fam': 'flat', 'handlers': names, 'br': br,
+                       'hr': None, 'else': None,
+                       'syntax': SYNTAXES[idx % 3]}
     # finally
     for ba in [None, 'return'] + CLS:
         for fa in [None, 'return'] + CLS:
@@ -305,6 +320,10 @@ def namespace(rv=0):
     for c in CLS + ['HM']:
         ns['raise' + c] = ['raiser', 'r' + c, c, 'msg-' + c]
         ns[c + 'c'] = ['exc', c]
+    for c in ('KeyError~', 'NotFound~', 'KeyError', 'IndexError',
+              'ValueError'):
+        ns['raise' + c.replace('~', 'F')] = ['raiser', 'r' + c, c,
+                                             'msg-' + c]
     return ns
 
 
